@@ -802,4 +802,26 @@ def judgeT (wt : Int → Int → Bool) (cfg : Cfg) (iter : Nat) (pts : List (Lis
   | .ok t => some (verdictsT wt pts ws t)
   | _ => none
 
+/-! ## The tree is the tree of C03 -/
+
+/-- (= `intOrderLaws` of Props/C03.) -/
+theorem intOrderLaws_aux : OrderLawsOn (α := Int) (fun _ => True) where
+  le_iff := by intro a b _ _; simp only [Coord.le, Coord.lt]; by_cases h : a ≤ b <;> simp [h] <;> omega
+  irrefl := by intro a _; simp [Coord.lt]
+  neg_trans := by
+    intro a b c _ _ _ h1 h2
+    simp only [Coord.lt, decide_eq_true_eq, decide_eq_false_iff_not] at *
+    omega
+
+/-- The tree `runTree` returns IS the bisection tree of C03 (`rcb_is_bisection` exhibits this
+very tree): strict separation at every node, cyclic axes, all points at the leaves. -/
+theorem runTree_bisection_int (wt : Int → Int → Bool) (cfg : Cfg) (iter : Nat) (pts : List (List Int))
+    (ws : List Int) (lo hi : List Int) (t : Tree (NodeInfo Int)) (hlen : ws.length = pts.length)
+    (h : runTree wt cfg iter pts ws lo hi = .ok t) :
+    IsBisection (ptKey pts) cfg.dim iter 0 0 t ∧ t.members.Perm (List.range pts.length) := by
+  have := recurse_bisection intOrderLaws_aux wt cfg (ptKey pts) iter _ _ _ _ _ _ t
+    (fun x hx c => (mkItems_itemsOf pts ws x hx).1 c) (fun _ _ _ => trivial) h
+  rw [mkItems_ids pts ws hlen] at this
+  exact this
+
 end Coupe.Rcb
